@@ -2,6 +2,7 @@ package vsched
 
 import (
 	"fmt"
+	"os"
 	"math/bits"
 	"time"
 )
@@ -93,6 +94,11 @@ func NewExplorer(o Options) *Explorer {
 	}
 	if o.Watchdog == 0 {
 		o.Watchdog = 60 * time.Second
+		if v := os.Getenv("VSCHED_WATCHDOG_S"); v != "" {
+			var n int
+			fmt.Sscan(v, &n)
+			o.Watchdog = time.Duration(n) * time.Second
+		}
 	}
 	ex := &Explorer{opts: o, dpor: o.Mode == ModeDPOR}
 	ex.Stats.Mode = o.Mode.String()
